@@ -6,8 +6,10 @@ import (
 	"strings"
 
 	"github.com/ajitpratap0/GoSQLX/pkg/gosqlx"
+	"github.com/ajitpratap0/GoSQLX/pkg/models"
 	"github.com/ajitpratap0/GoSQLX/pkg/sql/ast"
 	"github.com/ajitpratap0/GoSQLX/pkg/sql/parser"
+	"github.com/ajitpratap0/GoSQLX/pkg/sql/token"
 	"github.com/ajitpratap0/GoSQLX/pkg/sql/tokenizer"
 	"verifharness/dump"
 	"verifharness/gen"
@@ -19,7 +21,7 @@ func init() {
 }
 
 func c12Parent(c *mon.Ctx) {
-	c.Rule = "scripts S1;...;Sn (n<=6) of model statements, some corrupted at token level (delete / duplicate / replace / swap / truncate / insert; no statement-starting keyword after the first token; confirmed malformed by strict parsing of the segment alone) are given to gosqlx.ParseWithRecovery: the statements returned must be exactly the strict trees of the well-formed segments in order, the error count the number of malformed segments, each error's token index inside its own segment; token soup and all scripts check termination (parser advances <= 4*tokens+64 through the verif hook) and the errors-iff-strict-fails clause. distinct_nontrivial = distinct scripts with at least one malformed and one well-formed segment"
+	c.Rule = "scripts S1;...;Sn (n<=6) of model statements, some corrupted at token level (delete / duplicate / replace / swap / truncate / insert; no statement-starting keyword after the first token; confirmed malformed by strict parsing of the segment alone) are given to gosqlx.ParseWithRecovery: the statements returned must be exactly the strict trees of the well-formed segments in order, the error count the number of malformed segments, each error's token index and its (line, column) inside its own segment (terminator included); for scripts without a malformed segment the token-level entry points (Parser.ParseWithRecovery, ParseMultiWithRecovery) on the script's token stream with and without its final EOF token agree with strict parsing of that stream; token soup and all scripts check termination (parser advances <= 4*tokens+64 through the verif hook) and the errors-iff-strict-fails clause. distinct_nontrivial = distinct scripts with at least one malformed and one well-formed segment"
 	c.DistinctSet = "mixed_scripts"
 	c.Assumptions = []string{"token index of an error is compared in the parser's converted token stream (compound keywords expanded)"}
 	per := 700
@@ -311,10 +313,108 @@ func c12Judge(a *ChildArgs, trailingSemi bool, segs []segment, sample bool) {
 			}
 		}
 	}
+	// ... and its position (line, column) lies inside that statement's text, its terminator included
+	if len(errs) == nbad && nbad > 0 {
+		off := 0
+		var spans [][2]int
+		for _, s := range segs {
+			spans = append(spans, [2]int{off, off + len(s.sql)})
+			off += len(s.sql) + len(" ; ")
+		}
+		bi := 0
+		for si, s := range segs {
+			if !s.bad {
+				continue
+			}
+			pe, isPE := errs[bi].(*parser.ParseError)
+			bi++
+			if !isPE || pe.Line <= 0 {
+				continue
+			}
+			o := locOffset(script, pe.Line, pe.Column)
+			// the terminator " ; " (or the end of the script) still belongs to the statement it ends
+			if o < spans[si][0] || o > spans[si][1]+2 {
+				a.Rec.Viol("C12/script/error-position-outside-segment", "each error names a token inside its own statement",
+					fmt.Sprintf("error %d is located at %d:%d (offset %d), its statement spans offsets [%d,%d]", bi-1, pe.Line, pe.Column, o, spans[si][0], spans[si][1]), wit)
+				break
+			}
+			a.Rec.Count("error_positions_inside_segment", 1)
+		}
+	}
 	if sample {
 		a.Rec.Sample("script", 2, wit)
 	}
 	c12Dialect(a, script)
+	if nbad == 0 {
+		c12TokenLevel(a, script, len(want))
+	}
+}
+
+// locOffset converts a tokenizer location (1-based line, column with a tab counting four) to a byte offset; -1 if
+// the location does not exist in the text.
+func locOffset(text string, line, col int) int {
+	ln, i := 1, 0
+	for ln < line {
+		j := strings.IndexByte(text[i:], '\n')
+		if j < 0 {
+			return -1
+		}
+		i += j + 1
+		ln++
+	}
+	c := 1
+	for ; i < len(text) && text[i] != '\n' && c < col; i++ {
+		if text[i] == '\t' {
+			c += 4
+		} else {
+			c++
+		}
+	}
+	if c < col {
+		if c+1 == col {
+			return i // one past the end of the line (end of input)
+		}
+		return -1
+	}
+	return i
+}
+
+// c12TokenLevel: the token-level recovery entry points on the script's own token stream, with and without its final
+// EOF token, report an error exactly when strict parsing of the same stream fails, and lose no statement.
+func c12TokenLevel(a *ChildArgs, script string, nstmts int) {
+	_, toks, err := parser.ParseBytesWithTokens([]byte(script))
+	if err != nil || len(toks) == 0 {
+		return
+	}
+	for _, dropEOF := range []bool{false, true} {
+		ts := append([]token.Token(nil), toks...)
+		if dropEOF {
+			if ts[len(ts)-1].Type != models.TokenTypeEOF {
+				continue
+			}
+			ts = ts[:len(ts)-1]
+		}
+		ps := parser.NewParser()
+		strict, serr := ps.Parse(ts)
+		ps.Release()
+		pr := parser.NewParser()
+		stmts, errs := pr.ParseWithRecovery(ts)
+		pr.Release()
+		multi := parser.ParseMultiWithRecovery(ts)
+		nm, em := len(multi.Statements), len(multi.Errors)
+		multi.Release()
+		a.Rec.Count("evaluations", 1)
+		wit := map[string]interface{}{"script": script, "final_eof_token": !dropEOF, "tokens": len(ts)}
+		if (len(errs) > 0) != (serr != nil) || (em > 0) != (serr != nil) {
+			a.Rec.Viol(fmt.Sprintf("C12/tokens/iff/eof=%v", !dropEOF), "recovery reports an error exactly when strict parsing of the same input fails",
+				fmt.Sprintf("strict err=%v; ParseWithRecovery errors=%d; ParseMultiWithRecovery errors=%d", serr, len(errs), em), wit)
+			continue
+		}
+		if serr == nil && strict != nil && (len(stmts) != len(strict.Statements) || nm != len(strict.Statements)) {
+			a.Rec.Viol(fmt.Sprintf("C12/tokens/statements/eof=%v", !dropEOF), "returns precisely the trees strict parsing gives for the well-formed statements",
+				fmt.Sprintf("strict %d statements; ParseWithRecovery %d; ParseMultiWithRecovery %d", len(strict.Statements), len(stmts), nm), wit)
+		}
+	}
 }
 
 // c12Dialect: a parser configured for a dialect must honour it in recovery mode exactly as in strict mode.
